@@ -137,7 +137,9 @@ class Check(PropertyCheck):
                   "is only needed on an invariant the calls preserve) and request_cookies_view_refines (request.cookies over ANY "
                   "Cookie header values, any history of calls whose new keys are cookie names: the fields stay inside the class "
                   "C34's cookie codec round-trips, so the view IS a MultiDict on the parsed cookies; its two hypotheses are C34's "
-                  "theorems, discharged in Lemmas/C35Cookie.lean). Constructor: ctor_typeerror_iff (TypeError exactly when a name "
+                  "theorems), request_cookies_view_refines_closed (the same with the hypotheses discharged, audited by this check), "
+                  "cookieRun_is_view_run (the function the `viewc` driver op executes is Gen.View.runOps with the cookie lens) and "
+                  "viewc_is_multidict (what the viewc tie compares equals a MultiDict started with the given cookies). Constructor: ctor_typeerror_iff (TypeError exactly when a name "
                   "or value in `fields` is not bytes). HTTP/1: "
                   "parsed_headers_roundtrip / reparse_stable (no validity hypothesis: whatever _read_headers accepts, obs-fold "
                   "included, re-serialises and re-parses to itself) and http1_roundtrip(_general): for every field "
@@ -149,7 +151,12 @@ class Check(PropertyCheck):
                   "plain parent, request.query and request.cookies against the generic model (request.cookies against the composed "
                   "model generic _MultiDict + C34 cookie codec, Cookie header values compared too); kind `ctor` drives "
                   "Headers(fields, **kwargs) with str/bytes fields.")
-    level_note = ("trusted: Lean kernel; the model/implementation tie is differential (exhaustive over a 13-mutator alphabet up to "
+    level_note = ("Oracle shape: the seq/view laws are checked step by step against the implementation's OWN previously "
+                  "observed fields (P := fields after the previous step, starting from the input-given initial fields) - sound by "
+                  "induction over the steps since every observed state has itself been checked, but the expected value of step k is "
+                  "a function of the implementation's output of step k-1, not of the inputs alone; the input-only prediction of the "
+                  "whole trace is the model's (the tie). The rt/ctor/str clauses derive their expectation from the case alone. "
+                  "trusted: Lean kernel; the model/implementation tie is differential (exhaustive over a 13-mutator alphabet up to "
                   "depth 3 quick / 4 thorough, codec exhaustive on all 1-byte and all <=3-byte strings over the utf-8 boundary "
                   "alphabet, random beyond). The decoder exists in two transcriptions, byte-at-a-time (`native`) and CPython's "
                   "range-based control flow (`nativeRange`); their equality is PROVED, and both are compared with the real _native "
@@ -165,9 +172,12 @@ class Check(PropertyCheck):
                   "the oracle demands UnicodeEncodeError and unchanged fields, the model predicts the partial effect of update. "
                   "MultiDictView: the generic _MultiDict model is now tied at _kconv = id on MultiDict, a MultiDictView over a plain "
                   "parent (arbitrary str keys/values), request.query and request.cookies. For request.cookies the getter/setter law "
-                  "is C34's proved cookie round trip (Props/C35.lean states the two C34 theorems as hypotheses so that this check "
-                  "does not build another property's proof file; Lemmas/C35Cookie.lean instantiates them, it is outside this "
-                  "check's axiom audit). For request.query the law stays a hypothesis: urllib's urlencode/parse_qsl are not "
+                  "is C34's proved cookie round trip: request_cookies_view_refines states the two C34 theorems as hypotheses, "
+                  "request_cookies_view_refines_closed discharges them with Lemmas/C35CookieCodec.lean, a verbatim copy of the "
+                  "cookie sections of Props/C34.lean (proofs about Model/C34.lean only), so that this check builds and axiom-audits "
+                  "the closed theorem without importing another property's proof file that is still edited; the cookie "
+                  "transcription itself (Model/C34.lean) is tied to mitmproxy.net.http.cookies by C34's check and, for the values "
+                  "used here, by the viewc cases (Cookie header strings compared). For request.query the law stays a hypothesis: urllib's urlencode/parse_qsl are not "
                   "transcribed (the query cases use alphanumeric keys/values, compared with the identity-parent model). The `view` "
                   "oracle applies the multimap laws with exact keys; this is the sibling classes' contract, not a clause of C35's "
                   "statement. Response.cookies (values are (value, attrs) tuples) and urlencoded_form/multipart_form views are not "
